@@ -218,7 +218,7 @@ Proof.
         cbn [omap] in Hm; try discriminate Hm; try (injection Hm as ->; reflexivity).
       injection Hm as Hm. cbn [bind].
       rewrite (count_fields_erase_eq _ _ Hm).
-      destruct (existsb _ (count_fields l2)); [|cbn [omap erase]; rewrite Hm; reflexivity].
+      destruct (existsb _ (count_fields l2) && _); [|cbn [omap erase]; rewrite Hm; reflexivity].
       set (cols := map fst (sort_by count_lt _)).
       pose proof (place_all_erase cols l1) as P1. pose proof (place_all_erase cols l2) as P2.
       rewrite Hm in P1. rewrite P2 in P1. clear P2.
@@ -356,10 +356,23 @@ Proof.
   - etransitivity; [apply Hord|]. rewrite map_length. lia.
 Qed.
 
+(* the guard of the table (with the repair of D21: at most 55296 counted fields) *)
+Definition matrix_table (scratch : list expr) : bool :=
+  matrix_fires scratch && (N.of_nat (length (count_fields scratch)) <=? 55296)%N.
+
+Lemma matrix_table_fires scratch : matrix_table scratch = true -> matrix_fires scratch = true.
+Proof. unfold matrix_table. intros H. apply andb_prop in H. exact (proj1 H). Qed.
+
+Lemma matrix_table_small scratch : matrix_table scratch = true -> length (count_fields scratch) <= BIG.
+Proof.
+  unfold matrix_table. intros H. apply andb_prop in H. destruct H as [_ H].
+  apply N.leb_le in H. rewrite <- BIG_N in H. lia.
+Qed.
+
 Lemma matrix_or_eq ord F l :
   matrix ord F (EGroup BOr l) =
   do scratch <- mapM (fun x => matrix ord F x) l;
-  if matrix_fires scratch then
+  if matrix_table scratch then
     let cols := matrix_cols ord (count_fields scratch) in
     do pr <- place_all cols scratch;
     let '(rows, others) := pr in
@@ -393,14 +406,13 @@ Section MatrixTotal.
 Variable ord : hord.
 Hypothesis Hord : forall ks, length (ord ks) <= length ks.
 
-Lemma matrix_ok : forall e neg, exists_sub (d21_here ord) neg e = false ->
-  forall F, exists e', matrix ord F e = Ok e'.
+(* with the repair of D21 (the guard on the number of counted fields) matrix always returns *)
+Lemma matrix_ok_all : forall e F, exists e', matrix ord F e = Ok e'.
 Proof.
-  induction e as [e IH] using C01.size_ind. intros neg H F.
-  dex e; try (eexists; reflexivity);
-    cbn [exists_sub] in H; apply orb_false_iff in H; destruct H as [Hhere Hsub].
+  induction e as [e IH] using C01.size_ind. intros F.
+  dex e; try (eexists; reflexivity).
   - assert (Hmem : forall x, In x g -> forall F, exists y, matrix ord F x = Ok y).
-    { intros x Hx F0. apply (IH x ltac:(sz) neg). exact (C01.existsb_false_In _ _ _ Hsub Hx). }
+    { intros x Hx F0. apply (IH x ltac:(sz)). }
     destruct s; try (eexists; reflexivity).
     + cbn [matrix].
       destruct (mapM_good (fun x => matrix ord F x) (fun _ => True) g) as (l' & -> & _).
@@ -410,26 +422,25 @@ Proof.
       destruct (mapM_good (fun x => matrix ord F x) (fun _ => True) g) as (scratch & Hsc & _).
       { intros x Hx. destruct (Hmem x Hx F) as [y Hy]. eauto. }
       rewrite Hsc. cbn [bind].
-      destruct (matrix_fires scratch) eqn:Ef; [|eexists; reflexivity].
+      destruct (matrix_table scratch) eqn:Ef; [|eexists; reflexivity].
       cbv zeta.
-      pose proof (members_k_erase ord F g scratch (fun x Hx => Hmem x Hx _) Hsc) as HE.
-      apply count_fields_erase_eq in HE.
-      cbn [d21_here] in Hhere. fold (members_k ord g) in Hhere.
-      unfold matrix_fires in Hhere, Ef. rewrite HE in Hhere. rewrite Ef in Hhere. cbn [andb] in Hhere.
-      match type of Hhere with (?b <? _)%nat = false => change b with BIG in Hhere end.
-      apply Nat.ltb_ge in Hhere.
       destruct (place_all_ok (matrix_cols ord (count_fields scratch))) with (es := scratch) as [[rows others] ->].
-      { etransitivity; [apply matrix_cols_length; exact Hord | exact Hhere]. }
+      { etransitivity; [apply matrix_cols_length; exact Hord | exact (matrix_table_small _ Ef)]. }
       cbn [bind].
       destruct ((match rows with [] => [] | _ => [EMatrix (matrix_cols ord (count_fields scratch)) rows] end) ++ others)
         as [|a [|b rest]]; eexists; reflexivity.
-  - apply orb_false_iff in Hsub. destruct Hsub as [H1 H2]. cbn [matrix].
-    destruct (IH l1 ltac:(sz) neg H1 F) as [l' ->]. destruct (IH r1 ltac:(sz) neg H2 F) as [r' ->].
+  - cbn [matrix].
+    destruct (IH l1 ltac:(sz) F) as [l' ->]. destruct (IH r1 ltac:(sz) F) as [r' ->].
     cbn [bind]. eexists; reflexivity.
   - cbn [matrix]. destruct e; eexists; reflexivity.
-  - cbn [matrix]. destruct (IH e ltac:(sz) true Hsub F) as [e' ->]. cbn [bind]. eexists; reflexivity.
-  - cbn [matrix]. destruct (IH e ltac:(sz) neg Hsub F) as [e' ->]. cbn [bind]. eexists; reflexivity.
+  - cbn [matrix]. destruct (IH e ltac:(sz) F) as [e' ->]. cbn [bind]. eexists; reflexivity.
+  - cbn [matrix]. destruct (IH e ltac:(sz) F) as [e' ->]. cbn [bind]. eexists; reflexivity.
 Qed.
+
+(* (the D21 hypothesis is no longer needed; statement kept for the users of this lemma) *)
+Lemma matrix_ok : forall e neg, exists_sub (d21_here ord) neg e = false ->
+  forall F, exists e', matrix ord F e = Ok e'.
+Proof. intros e neg _ F. apply matrix_ok_all. Qed.
 
 End MatrixTotal.
 
@@ -489,6 +500,37 @@ Proof.
       destruct (matrix_ok ord Hord _ _ Hb (shake_fuel (snd kv))) as [e0 ->]. cbn [bind]. eauto.
     - eauto. }
   destruct Hids as [ids' ->]. cbn [bind]. eexists; reflexivity.
+Qed.
+
+Lemma optimise_total_stage_all o ord sw dt :
+  (forall ks, length (ord ks) <= length ks) ->
+  good_det dt ->
+  exists dt', optimise_detection o ord sw dt = Ok dt'.
+Proof.
+  intros Hord Hg. rewrite optimise_detection_stage.
+  destruct (no_matrix_stage_good o ord sw dt Hg) as (s3 & Hs & _). rewrite Hs. cbn [bind].
+  destruct (sw_matrix sw) eqn:Em; [|eexists; reflexivity].
+  destruct (matrix_ok_all ord Hord (d_expr s3) (shake_fuel (d_expr s3))) as [e' ->]. cbn [bind].
+  assert (Hids : exists ids', map_ids (fun x => matrix ord (shake_fuel x) x) (d_ids s3) = Ok ids').
+  { unfold map_ids.
+    destruct (mapM_good (fun kv : str * expr => do e <- matrix ord (shake_fuel (snd kv)) (snd kv); Ok (fst kv, e))
+                        (fun _ => True) (d_ids s3)) as (ids' & Hm & _).
+    - intros kv Hkv.
+      destruct (matrix_ok_all ord Hord (snd kv) (shake_fuel (snd kv))) as [e0 ->]. cbn [bind]. eauto.
+    - eauto. }
+  destruct Hids as [ids' ->]. cbn [bind]. eexists; reflexivity.
+Qed.
+
+(* ---- theorem 4, without the D21 exclusion ---- *)
+Lemma optimise_total_all : forall o ic ord sw y r,
+  (forall ks, (length (ord ks) <= length ks)%nat) ->
+  load_rule o ic y = Ok r ->
+  exists r', optimise o ord sw r = Ok r'.
+Proof.
+  intros o ic ord sw y r Hord Hl. unfold optimise.
+  destruct (r_optimised r); [eexists; reflexivity|].
+  destruct (optimise_total_stage_all o ord sw _ Hord (load_good _ _ _ _ Hl)) as [dt' ->].
+  cbn [bind]. eexists; reflexivity.
 Qed.
 
 (* ---- theorem 4 ---- *)
@@ -572,7 +614,7 @@ Proof.
     unfold map_ids. rewrite mapM_cons. cbn [snd fst]. rewrite matrix_or_eq.
     change (mapM (fun x => matrix refuted_ord _ x) _) with
       (Ok [ESearch (SExact [120%N]) [102%N] false; ESearch (SExact [121%N]) [102%N] false]).
-    cbn [bind]. change (matrix_fires _) with true. cbv iota zeta.
+    cbn [bind]. change (matrix_table _) with true. cbv iota zeta.
     change (count_fields _) with [([102%N], 2%nat)].
     assert (Hc : matrix_cols refuted_ord [([102%N], 2%nat)] = repeat [102%N] (S BIG)).
     { unfold matrix_cols, refuted_ord. cbn [map fst]. rewrite flat_map_single.
@@ -1158,22 +1200,21 @@ Variable ord : hord.
 Hypothesis Hord : forall ks, length (ord ks) <= length ks.
 Variable K : str -> bool.
 
-Lemma matrix_gm : forall e neg, gk K e = true ->
-  exists_sub (d18_here ord) neg e = false -> exists_sub (d21_here ord) neg e = false ->
+Lemma matrix_gm0 : forall e neg, gk K e = true ->
+  exists_sub (d18_here ord) neg e = false ->
   forall F e', matrix ord F e = Ok e' -> gm K e' = true.
 Proof.
-  induction e as [e IH] using C01.size_ind. intros neg Hg H18 H21 F e' H.
+  induction e as [e IH] using C01.size_ind. intros neg Hg H18 F e' H.
   pose proof (proj1 (gk_gm K e Hg)) as Hgm.
   dex e; cbn [gk] in Hg; try discriminate Hg; try (inversion H; subst; exact Hgm);
-    cbn [exists_sub] in H18, H21;
-    apply orb_false_iff in H18; destruct H18 as [Hh18 Hs18];
-    apply orb_false_iff in H21; destruct H21 as [Hh21 Hs21].
+    cbn [exists_sub] in H18;
+    apply orb_false_iff in H18; destruct H18 as [Hh18 Hs18].
   - (* group *)
     apply andb_prop in Hg. destruct Hg as [Hs Hl].
     assert (Hmem : forall x y, In x g -> matrix ord F x = Ok y -> gm K y = true).
     { intros x y Hx Hy.
       apply (IH x ltac:(sz) neg (C01.forallb_In _ _ _ Hl Hx)
-                (C01.existsb_false_In _ _ _ Hs18 Hx) (C01.existsb_false_In _ _ _ Hs21 Hx) F y Hy). }
+                (C01.existsb_false_In _ _ _ Hs18 Hx) F y Hy). }
     assert (Hsc : forall scratch, mapM (fun x => matrix ord F x) g = Ok scratch ->
                                   Forall (fun y => gm K y = true) scratch).
     { intros scratch Hm. apply C01.mapM_Forall2 in Hm. clear - Hm Hmem.
@@ -1187,12 +1228,13 @@ Proof.
       pose proof (Hsc _ Hm) as Hgs.
       assert (HGS : gm K (EGroup BOr scratch) = true).
       { cbn [gm is_and_or andb]. apply forallb_forall. apply Forall_forall. exact Hgs. }
-      destruct (matrix_fires scratch) eqn:Ef; [|inversion H; subst; exact HGS].
+      destruct (matrix_table scratch) eqn:Et; [|inversion H; subst; exact HGS].
+      pose proof (matrix_table_fires _ Et) as Ef.
       cbv zeta in H.
       apply C03.bind_ok_inv in H. destruct H as ([rows others] & Hp & H).
       assert (HE : map erase (members_k ord g) = map erase scratch).
       { apply (members_k_erase ord F g scratch); [|exact Hm].
-        intros x Hx. exact (matrix_ok ord Hord x neg (C01.existsb_false_In _ _ _ Hs21 Hx) _). }
+        intros x Hx. exact (matrix_ok_all ord Hord x _). }
       cbn [d18_here] in Hh18. fold (members_k ord g) in Hh18.
       unfold matrix_fires in Hh18, Ef. rewrite (count_fields_erase_eq _ _ HE), Ef in Hh18.
       cbn [andb] in Hh18. rewrite <- existsb_d18_erase, HE, existsb_d18_erase in Hh18.
@@ -1210,15 +1252,14 @@ Proof.
     cbn [matrix] in H. destruct (is_and_or op) eqn:Eop.
     + apply andb_prop in Hg. destruct Hg as [G1 G2].
       apply orb_false_iff in Hs18. destruct Hs18 as [A1 A2].
-      apply orb_false_iff in Hs21. destruct Hs21 as [B1 B2].
       apply C03.bind_ok_inv in H. destruct H as (l' & Hl' & H).
       apply C03.bind_ok_inv in H. destruct H as (r' & Hr' & H). inversion H; subst.
       assert (S1 : expr_size l1 < expr_size (EBexp l1 op r1))
         by (cbn [expr_size]; apply le_n_S, Nat.le_add_r).
       assert (S2 : expr_size r1 < expr_size (EBexp l1 op r1))
         by (cbn [expr_size]; apply le_n_S; rewrite Nat.add_comm; apply Nat.le_add_r).
-      pose proof (IH l1 S1 neg G1 A1 B1 F l' Hl') as R1.
-      pose proof (IH r1 S2 neg G2 A2 B2 F r' Hr') as R2.
+      pose proof (IH l1 S1 neg G1 A1 F l' Hl') as R1.
+      pose proof (IH r1 S2 neg G2 A2 F r' Hr') as R2.
       cbn [gm]. rewrite Eop, R1, R2. reflexivity.
     + apply andb_prop in Hg. destruct Hg as [G1 G2].
       rewrite (matrix_leaf ord F l1 G1), (matrix_leaf ord F r1 G2) in H. cbn [bind] in H.
@@ -1233,11 +1274,17 @@ Proof.
     apply shake1_good. exact (C01.forallb_In _ _ _ Hl Hx).
   - (* negate *)
     cbn [matrix] in H. apply C03.bind_ok_inv in H. destruct H as (x & Hx & H). inversion H; subst.
-    cbn [gm]. exact (IH e ltac:(sz) true Hg Hs18 Hs21 F x Hx).
+    cbn [gm]. exact (IH e ltac:(sz) true Hg Hs18 F x Hx).
   - (* nested *)
     cbn [matrix] in H. apply C03.bind_ok_inv in H. destruct H as (x & Hx & H). inversion H; subst.
-    cbn [gm]. exact (IH e ltac:(sz) neg Hg Hs18 Hs21 F x Hx).
+    cbn [gm]. exact (IH e ltac:(sz) neg Hg Hs18 F x Hx).
 Qed.
+
+(* (the D21 hypothesis is no longer needed; statement kept for the users of this lemma) *)
+Lemma matrix_gm : forall e neg, gk K e = true ->
+  exists_sub (d18_here ord) neg e = false -> exists_sub (d21_here ord) neg e = false ->
+  forall F e', matrix ord F e = Ok e' -> gm K e' = true.
+Proof. intros e neg Hg H18 _. exact (matrix_gm0 e neg Hg H18). Qed.
 
 End MatrixGood.
 
